@@ -85,9 +85,78 @@ def _is_disallowed(c):
     return c.get("fname") in DISALLOWED_FLOAT and ("f64" in (c.get("fn") or "") or "f32" in (c.get("fn") or ""))
 
 
+IFE = "nodes::expressions::if_expression::IfExpression"
+ELIF = "nodes::expressions::if_expression::ElseIfExpressionBranch"
+
+
+def if_effects(R, ctx, rid="C08.if-effects"):
+    """Path rule on Evaluator::if_expression_has_side_effects."""
+    from .. import absint
+    lib = ctx.lib
+    R.rule(rid, "if_expression_has_side_effects: the condition is always asked first; on the path where the condition's truthiness is unknown, "
+                "has_side_effects is asked about the result, every elseif *condition*, every elseif result and the else result (all of them may "
+                "be evaluated at run time); when the condition is known false, about every elseif condition before its result, and the else result")
+    fn = lib.fn(EV + "::if_expression_has_side_effects")
+    if not R.require(rid, "anchor", fn is not None, "", "not found"):
+        return
+    fa = ctx.an.fa(fn["path"])
+
+    def slot_of(e):
+        o = {x for x in fa.origins(e) if x[0] in (IFE, ELIF)}
+        for s_ in ((ELIF, "condition"), (ELIF, "result"), (IFE, "condition"), (IFE, "result"), (IFE, "else_result")):
+            if s_ in o:
+                return s_
+        return None
+
+    def atom(e):
+        # `if let Some(truthy) = condition.is_truthy()`  /  `if truthy`
+        if e.get("k") == "Let" and any(c.get("fname") == "is_truthy" for c in fa.source_calls(e["e"])):
+            src = [c for c in fa.source_calls(e["e"]) if c.get("fname") == "evaluate"]
+            sl = slot_of(src[0]["args"][1]) if src else None
+            return ("known", sl)
+        if e.get("k") == "Var" and e.get("name") == "truthy":
+            return ("truthy", e["var"])
+        return None
+
+    def event(c):
+        if c.get("fname") == "has_side_effects" and len(c["args"]) >= 2:
+            sl = slot_of(c["args"][1])
+            if sl:
+                return ("hse",) + sl
+        return None
+    it = absint.Interp(atom, event)
+    try:
+        paths = it.run(thir.body_of(fn))
+    except RuntimeError:
+        paths = []
+    R.require(rid, "anchor:paths", len(paths) >= 3, ctx.where(fn), "%d paths enumerated" % len(paths))
+    # all paths: first event is the main condition
+    first_ok = all(p.events and p.events[0] == ("hse", IFE, "condition") for p in paths)
+    R.ob(rid, "condition-asked-first", first_ok, ctx.where(fn), "every path starts with has_side_effects(condition): %s" % first_ok)
+    unknown = [p for p in paths if p.assign.get(("known", (IFE, "condition"))) is False]
+    R.require(rid, "anchor:unknown-path", len(unknown) >= 1, ctx.where(fn), "path with unknown condition truthiness not recognised")
+    need = [(IFE, "result"), (ELIF, "condition"), (ELIF, "result"), (IFE, "else_result")]
+    for sl in need:
+        # among the unknown-condition paths, those that run to the end (final result not decided by an early `return true`)
+        full = [p for p in unknown if ("hse", IFE, "else_result") in p.events]
+        ok = bool(full) and all(("hse",) + sl in p.events for p in full if _enters_loop(p) or sl[0] == IFE)
+        R.ob(rid, "unknown-condition|asks|%s.%s" % (sl[0].split("::")[-1], sl[1]), ok, ctx.where(fn),
+             "on the unknown-truthiness path has_side_effects(%s.%s) is %s" % (sl[0].split("::")[-1], sl[1], "asked" if ok else "NOT asked: an effectful elseif condition/result is declared effect-free and dropped with the expression"))
+    falsy = [p for p in paths if p.assign.get(("known", (IFE, "condition"))) is True and any(k[0] == "truthy" and v is False for k, v in p.assign.items() if isinstance(k, tuple))]
+    if falsy:
+        full = [p for p in falsy if ("hse", IFE, "else_result") in p.events and _enters_loop(p)]
+        ok = bool(full) and all(("hse", ELIF, "condition") in p.events for p in full)
+        R.ob(rid, "false-condition|asks|ElseIfExpressionBranch.condition", ok, ctx.where(fn), "known-false condition: every elseif condition is asked: %s" % ok)
+
+
+def _enters_loop(p):
+    return any(e[0] == "hse" and e[1] == ELIF for e in p.events)
+
+
 def run(R, ctx):
     lib = ctx.lib
     float_order(R, ctx)
+    if_effects(R, ctx)
     R.explanation = (
         "Decision tables of the evaluator's match expressions (variant -> constant / recurse), compared with the soundness skeleton an "
         "abstract interpreter of Lua needs: opaque leaves are Unknown, calls are effectful, unknown means 'maybe metatable', multi-value "
